@@ -22,7 +22,8 @@ RULE = ("write_setting(id, v) then read_setting(id) for EVERY setting of ET (eco
         "'no value' sentinel (Integer 65535, Long 0xFFFFFFFF: they read back as 0 - counted in the evidence); "
         "boundary + seeded values for 4/6/8/12-byte types (timestamps 2000-2255, eco groups built from valid "
         "fields).  Every fourth case runs under benign faults (lost request / lost answer within the retry budget): a "
-        "retried write must be the identical frame.  Oracle from the PEER: exactly one distinct write for the call, "
+        "retried write must be the identical frame; some RTU/UDP cases run against a peer that appends 2-4 surplus bytes to "
+        "every answer (which the library accepts).  Oracle from the PEER: exactly one distinct write for the call, "
         "addressed to exactly [offset, offset+ceil(size/2)), carrying the reference encoding of v (one-byte settings: "
         "other half of the word unchanged); every other register unchanged; read_setting returns v (eco groups: "
         "decoded fields == reference decode of v).  Non-trivial: every case; distinct: (config, setting, value).")
@@ -74,13 +75,17 @@ def make_case(tier, seed, index):
     ci, slot, ch, rep_only = _space(tier)[index]
     fam, var, tr = CONFIGS[ci]
     return {"family": fam, "variant": var, "transport": tr, "slot": slot, "chunk": ch, "rep_only": rep_only,
-            "seed": (seed * 9176 + index) & 0xFFFFFF, "benign": index % 4 == 3}
+            "seed": (seed * 9176 + index) & 0xFFFFFF, "benign": index % 4 == 3,
+            # a peer that appends surplus bytes to every RTU answer (accepted by the library, see C02)
+            "trailing": ["", "", "0000", "a55a", "12345678"][(index // 2) % 5] if tr == "udp" and fam != "ES" else ""}
 
 
 def simplify(case):
     out = []
     if case.get("benign"):
         out.append(dict(case, benign=False))
+    if case.get("trailing"):
+        out.append(dict(case, trailing=""))
     if "only_value" not in case:
         for j in range(VALUES_PER_CASE):
             out.append(dict(case, only_value=j))
@@ -171,6 +176,8 @@ def run_case(case):
     world = World(max_steps=3_000_000)
     dev, inv = build(goodwe, fam, var, tr, case["seed"] & 0xFFFF)
     world.net.add_device(C.HOST, C.port_of(tr), dev)
+    default_fault = {"k": "mut", "ops": [["extend", case["trailing"]]]} if case.get("trailing") else {"k": "ok"}
+    world.net.begin_script([], default_fault)
     violations = []
     keys = set()
     stats = {"pairs": 0, "skipped_sentinel": 0, "no_encoding": 0, "not_readable": 0}
@@ -227,7 +234,7 @@ def run_case(case):
                 m = j % 3
                 world.net.begin_script([{"k": "ok"}] * (1 if cls in ("ByteH", "ByteL") else 0) +
                                        ([{"k": "drop"}] if m == 0 else [{"k": "dropans"}] if m == 1 else
-                                        [{"k": "ok", "d": 0.5}]), {"k": "ok"})
+                                        [{"k": "ok", "d": 0.5}]), default_fault)
             what = f"{fam}/{var}/{tr} write_setting({st.id_!r}, {v!r}) [{cls} @ {st.offset}]"
             try:
                 await inv.write_setting(st.id_, v)
